@@ -7,7 +7,7 @@
    closed). *)
 From Hio Require Import Base.Prelude Base.AMap Base.Time Model.Sched Proofs.SchedEqs Proofs.SchedFrame Proofs.SchedLife
   Proofs.SchedDeque Proofs.SchedDequeHold Proofs.SchedDequeAll Proofs.SchedDequeUniq Proofs.SchedDequeEffects
-  Proofs.SchedDequeEpos Proofs.SchedDequeSortB Proofs.SchedDequePass.
+  Proofs.SchedDequeEpos Proofs.SchedDequeSortB Proofs.SchedDequePass Proofs.SchedDequeRoot0.
 
 Section Shelter.
 Context {T : Type} `{Time T}.
@@ -280,23 +280,32 @@ Variable Pr : id -> Prop.
 Variable d : amap (fdef T).
 
 (* deques that are never processed: of leaves and of undefined ids *)
-Definition Lf (i : id) : Prop := isnest d i = false.
+Definition Lf (i : id) : Prop := isnest d i = false /\ i <> 0%N.
 Hypothesis Dj : get d j <> None.
+Hypothesis D0 : get d 0%N = None.
 
-Definition HP s : Prop := (forall x, Pr x -> prot s x) /\ defs s = d.
+Definition HP s : Prop := (forall x, Pr x -> prot s x) /\ defs s = d /\ ~ is_susp s 0%N.
 
 Lemma hp_same s s' : (forall x, get_gen s' x = get_gen s x) -> defs s' = defs s -> HP s -> HP s'.
-Proof. intros Hg Hd [P D]. split; [intros x Px; apply (prot_same s); [exact Hg|exact Hd|now apply P]|congruence]. Qed.
-Lemma hp_gen s i g : ~ Pr i -> HP s -> HP (set_gen s i g).
 Proof.
-  intros Np [P D]. split; [|exact D]. intros x Px. apply prot_gen; [|now apply P]. intro Heq. subst. contradiction.
+  intros Hg Hd (P & D & Z). split; [intros x Px; apply (prot_same s); [exact Hg|exact Hd|now apply P]|]. split; [congruence|].
+  intros [pc S]. apply Z. exists pc. now rewrite <- Hg.
 Qed.
-Lemma hp_steps s s' : steps s s' -> (forall x, prot s x -> prot s' x) -> HP s -> HP s'.
-Proof. intros St K [P D]. split; [intros x Px; apply K; now apply P|now rewrite (steps_defs _ _ St)]. Qed.
+Lemma hp_gen s i g : ~ Pr i -> get (defs s) i <> None -> HP s -> HP (set_gen s i g).
+Proof.
+  intros Np Di (P & D & Z). split; [|split; [exact D|]].
+  - intros x Px. apply prot_gen; [|now apply P]. intro Heq. subst. contradiction.
+  - intros [pc S]. apply Z. exists pc. rewrite gen_set_gen_other in S; [exact S|]. intro Heq. subst i. rewrite D, D0 in Di. now apply Di.
+Qed.
+Lemma hp_steps s s' : steps s s' -> (forall x, Pr x -> prot s x -> prot s' x) -> get_gen s' 0%N = get_gen s 0%N -> HP s -> HP s'.
+Proof.
+  intros St K G0 (P & D & Z). split; [intros x Px; apply K; [exact Px|now apply P]|]. split; [now rewrite (steps_defs _ _ St)|].
+  intros [pc S]. apply Z. exists pc. now rewrite <- G0.
+Qed.
 
 Lemma hp_all f :
   (forall s i s' r, HP s -> gen_start tk f s i = (s', r) -> HP s') /\
-  (forall s i k sc pc s' r, HP s -> ~ Pr i -> run_step tk f s i k sc pc = (s', r) -> HP s') /\
+  (forall s i k sc pc s' r, HP s -> ~ Pr i -> i <> 0%N -> run_step tk f s i k sc pc = (s', r) -> HP s') /\
   (forall s i s' r, HP s -> gen_send tk f s i = (s', r) -> HP s') /\
   (forall s i, HP s -> HP (gen_close tk f s i)) /\
   (forall s i, HP s -> HP (close_own tk f s i)) /\
@@ -308,30 +317,32 @@ Lemma hp_all f :
   (forall s sid s' r, HP s -> recur_loop tk f s sid = (s', r) -> HP s').
 Proof.
   destruct (frame_all tk f) as (Fst & Frs & Fsd & Fcl & Fco & Fli & Feo & Fel & Fef & Frp & Frl).
+  destruct (z_all tk d D0 f) as (Zst & Zrs & Zsd & Zcl & Zco & Zli & Zeo & Zel & Zef & Zrp & Zrl).
+  assert (ZR : forall s, HP s -> Z0 d s s) by (intros s (_ & D & _); split; [reflexivity|exact D]).
   repeat match goal with |- _ /\ _ => split end; intros.
-  - apply (hp_steps s s'); [eauto using st_refl| |eassumption].
-    intros x Px. destruct (prot_more tk f x) as (K & _). eapply K; eassumption.
-  - match goal with Hh : HP _ |- _ => destruct Hh as [P D] end. split.
-    + intros x Px. destruct (prot_all tk f x) as (K & _). eapply K; [now apply P| |eassumption]. intro Heq. subst. contradiction.
-    + rewrite <- D. apply steps_defs. eapply Frs; [apply st_refl|eassumption].
-  - apply (hp_steps s s'); [eauto using st_refl| |eassumption].
-    intros x Px. destruct (prot_all tk f x) as (_ & K & _). eapply K; eassumption.
-  - apply (hp_steps s (gen_close tk f s i)); [apply Fcl, st_refl| |eassumption].
-    intros x Px. destruct (prot_all tk f x) as (_ & _ & K & _). now apply K.
-  - apply (hp_steps s (close_own tk f s i)); [apply Fco, st_refl| |eassumption].
-    intros x Px. destruct (prot_all tk f x) as (_ & _ & _ & K & _). now apply K.
-  - apply (hp_steps s (close_list tk f s ds)); [apply Fli, st_refl| |eassumption].
-    intros x Px. destruct (prot_all tk f x) as (_ & _ & _ & _ & K & _). now apply K.
-  - apply (hp_steps s s'); [eauto using st_refl| |eassumption].
-    intros x Px. destruct (prot_more tk f x) as (_ & K & _). eapply K; eassumption.
-  - apply (hp_steps s s'); [eauto using st_refl| |eassumption].
-    intros x Px. destruct (prot_more tk f x) as (_ & _ & K). eapply K; eassumption.
-  - apply (hp_steps s s'); [eauto using st_refl| |eassumption].
-    intros x Px. destruct (prot_all tk f x) as (_ & _ & _ & _ & _ & K & _). eapply K; eassumption.
-  - apply (hp_steps s s'); [eauto using st_refl| |eassumption].
-    intros x Px. destruct (prot_all tk f x) as (_ & _ & _ & _ & _ & _ & K & _). eapply K; eassumption.
-  - apply (hp_steps s s'); [eauto using st_refl| |eassumption].
-    intros x Px. destruct (prot_all tk f x) as (_ & _ & _ & _ & _ & _ & _ & K). eapply K; eassumption.
+  - apply (hp_steps s s'); [eauto using st_refl| |exact (proj1 (Zst s s i s' r (ZR s H0) H1))|eassumption].
+    intros x Hx Px. destruct (prot_more tk f x) as (K & _). eapply K; eassumption.
+  - apply (hp_steps s s'); [eauto using st_refl| |exact (proj1 (Zrs s s i k sc pc s' r (ZR s H0) H2 H3))|eassumption].
+    intros x Hx Px. destruct (prot_all tk f x) as (K & _). eapply K; [exact Px| |eassumption].
+    intro Heq. subst x. contradiction.
+  - apply (hp_steps s s'); [eauto using st_refl| |exact (proj1 (Zsd s s i s' r (ZR s H0) H1))|eassumption].
+    intros x Hx Px. destruct (prot_all tk f x) as (_ & K & _). eapply K; eassumption.
+  - apply (hp_steps s (gen_close tk f s i)); [apply Fcl, st_refl| |exact (proj1 (Zcl s s i (ZR s H0)))|eassumption].
+    intros x Hx Px. destruct (prot_all tk f x) as (_ & _ & K & _). now apply K.
+  - apply (hp_steps s (close_own tk f s i)); [apply Fco, st_refl| |exact (proj1 (Zco s s i (ZR s H0)))|eassumption].
+    intros x Hx Px. destruct (prot_all tk f x) as (_ & _ & _ & K & _). now apply K.
+  - apply (hp_steps s (close_list tk f s ds)); [apply Fli, st_refl| |exact (proj1 (Zli s s ds (ZR s H0)))|eassumption].
+    intros x Hx Px. destruct (prot_all tk f x) as (_ & _ & _ & _ & K & _). now apply K.
+  - apply (hp_steps s s'); [eauto using st_refl| |exact (proj1 (Zeo s s sid ids s' r (ZR s H0) H1))|eassumption].
+    intros x Hx Px. destruct (prot_more tk f x) as (_ & K & _). eapply K; eassumption.
+  - apply (hp_steps s s'); [eauto using st_refl| |exact (proj1 (Zel s s ids acc s' r acc' (ZR s H0) H1))|eassumption].
+    intros x Hx Px. destruct (prot_more tk f x) as (_ & _ & K). eapply K; eassumption.
+  - apply (hp_steps s s'); [eauto using st_refl| |exact (proj1 (Zef s s c es s' r (ZR s H0) H1))|eassumption].
+    intros x Hx Px. destruct (prot_all tk f x) as (_ & _ & _ & _ & _ & K & _). eapply K; eassumption.
+  - apply (hp_steps s s'); [eauto using st_refl| |exact (proj1 (Zrp s s sid s' r (ZR s H0) H1))|eassumption].
+    intros x Hx Px. destruct (prot_all tk f x) as (_ & _ & _ & _ & _ & _ & K & _). eapply K; eassumption.
+  - apply (hp_steps s s'); [eauto using st_refl| |exact (proj1 (Zrl s s sid s' r (ZR s H0) H1))|eassumption].
+    intros x Hx Px. destruct (prot_all tk f x) as (_ & _ & _ & _ & _ & _ & _ & K). eapply K; eassumption.
 Qed.
 
 Lemma np_start s i : HP s -> startable s i = true -> get (defs s) i <> None -> ~ Pr i.
@@ -373,7 +384,7 @@ Proof.
   apply (hang_irrel (dq s) _ Pr Lf C y); [| | | |exact Hg].
   - intros z Hz. now apply dq_set_other.
   - exact Np.
-  - unfold Lf. congruence.
+  - unfold Lf. intros [Hl _]. congruence.
   - eapply (hang_not_running s); eassumption.
 Qed.
 Lemma pj_irrel_deeds a s C E y l :
@@ -405,10 +416,12 @@ Proof.
   - split; [|congruence]. apply pj_emit; [discriminate|]. now apply pj_gen_other.
 Qed.
 
-Lemma pj_drop_undefined a s C i : get (defs s) i = None -> HP s -> PJ' a s (i :: C) -> PJ' a s C.
+Lemma pj_drop_undefined a s C i : get (defs s) i = None -> HP s -> is_susp s i -> PJ' a s (i :: C) -> PJ' a s C.
 Proof.
-  intros D [_ Dd] [N Dj']. split; [exact N|]. destruct Dj' as [E|[St|[R|Hg]]]; [now left|right; now left|right; right; now left|].
-  assert (Li : Lf i) by (unfold Lf, isnest; rewrite <- Dd, D; reflexivity).
+  intros D (_ & Dd & Z) Sz [N Dj']. split; [exact N|]. destruct Dj' as [E|[St|[R|Hg]]]; [now left|right; now left|right; right; now left|].
+  destruct (N.eq_dec i 0) as [Hz|Hz].
+  { (* the hand 0 is suspended (Hold2), impossible *) subst i. exfalso. exact (Z Sz). }
+  assert (Li : Lf i) by (split; [unfold isnest; rewrite <- Dd, D; reflexivity|exact Hz]).
   destruct (hang_split_hand _ _ _ _ _ _ Hg) as [Heq|Hg'].
   - subst i. rewrite Dd in D. contradiction.
   - right; right; right. now apply (hang_leaf_roots _ _ _ _ i).
@@ -446,9 +459,14 @@ Definition shel_at (f : nat) : Prop :=
        PJ' a s C -> recur_loop tk f s sid = (s', r) -> oof s' = false -> PJ' a s' C).
 
 Lemma isnest_of s i t0 al kids : HP s -> get (defs s) i = Some (FNest t0 al kids) -> isnest d i = true.
-Proof. intros [_ D] G. unfold isnest. rewrite <- D, G. reflexivity. Qed.
+Proof. intros (_ & D & _) G. unfold isnest. rewrite <- D, G. reflexivity. Qed.
 Lemma lf_of_leaf s i k sc : HP s -> get (defs s) i = Some (FLeaf k sc) -> Lf i.
-Proof. intros [_ D] G. unfold Lf, isnest. rewrite <- D, G. reflexivity. Qed.
+Proof.
+  intros (_ & D & _) G. split; [unfold isnest; rewrite <- D, G; reflexivity|].
+  intro Heq. subst i. rewrite D, D0 in G. discriminate.
+Qed.
+Lemma ne0_of s i x : HP s -> get (defs s) i = Some x -> i <> 0%N.
+Proof. intros (_ & D & _) G Heq. subst i. rewrite D, D0 in G. discriminate. Qed.
 
 Lemma incl_cons_r (C X : list id) i : incl C X -> incl C (i :: X).
 Proof. intros Hc k Hk. right. now apply Hc. Qed.
@@ -486,12 +504,12 @@ Proof.
       * assert (Np : ~ Pr i) by (eapply np_start; [exact P|exact St|congruence]).
         destruct (pj_start a s C i J) as [J1 E1].
         eapply (Irs a _ X C); [| | | | | |exact E|exact O]; [|apply hold2_emit; now apply g2_start|exact Hc|exact Np|exact E1|exact J1].
-        apply (hp_same (set_gen s i (GRun 0))); [reflexivity|reflexivity|now apply hp_gen].
+        apply (hp_same (set_gen s i (GRun 0))); [reflexivity|reflexivity|apply hp_gen; [exact Np|rewrite D; discriminate|exact P]].
       * assert (Np : ~ Pr i) by (eapply np_start; [exact P|exact St|congruence]).
         assert (Ni : isnest d i = true) by (eapply isnest_of; eassumption).
         cbv zeta in E. destruct (pj_start a s C i J) as [J1 E1].
         set (s1 := emit (set_gen s i (GRun 0)) Enter i) in *.
-        assert (P1 : HP s1) by (apply (hp_same (set_gen s i (GRun 0))); [reflexivity|reflexivity|now apply hp_gen]).
+        assert (P1 : HP s1) by (apply (hp_same (set_gen s i (GRun 0))); [reflexivity|reflexivity|apply hp_gen; [exact Np|rewrite D; discriminate|exact P]]).
         assert (H1 : Hold2 s1 X) by (apply hold2_emit; now apply g2_start).
         assert (R1 : running s1 i) by (exists 0%nat; apply gen_set_gen_same).
         destruct (enter_own tk f s1 i _) as [s2 r0] eqn:Ee.
@@ -529,12 +547,12 @@ Proof.
       * assert (Np : ~ Pr i) by (eapply np_susp; [exact P|exact G|congruence]).
         destruct (pj_recur a s C X i pc Hh Hc G J) as [J1 E1].
         eapply (Irs a _ X C); [| | | | | |exact E|exact O]; [|apply hold2_emit; now apply g2_resume|exact Hc|exact Np|exact E1|exact J1].
-        apply (hp_same (set_gen s i (GRun pc))); [reflexivity|reflexivity|now apply hp_gen].
+        apply (hp_same (set_gen s i (GRun pc))); [reflexivity|reflexivity|apply hp_gen; [exact Np|rewrite D; discriminate|exact P]].
       * assert (Np : ~ Pr i) by (eapply np_susp; [exact P|exact G|congruence]).
         assert (Ni : isnest d i = true) by (eapply isnest_of; eassumption).
         cbv zeta in E. destruct (pj_recur a s C X i pc Hh Hc G J) as [J1 E1].
         set (s1 := emit (set_gen s i (GRun pc)) Recur i) in *.
-        assert (P1 : HP s1) by (apply (hp_same (set_gen s i (GRun pc))); [reflexivity|reflexivity|now apply hp_gen]).
+        assert (P1 : HP s1) by (apply (hp_same (set_gen s i (GRun pc))); [reflexivity|reflexivity|apply hp_gen; [exact Np|rewrite D; discriminate|exact P]]).
         assert (H1 : Hold2 s1 X) by (apply hold2_emit; now apply g2_resume).
         assert (R1 : running s1 i) by (exists pc; apply gen_set_gen_same).
         destruct (recur_pass tk f s1 i) as [s2 r0] eqn:Ee.
@@ -573,14 +591,14 @@ Proof.
       * cbv zeta in *.
         assert (Np : ~ Pr i) by (eapply np_susp; [exact P|exact G|congruence]).
         apply (NestEnd a _ X C i); try assumption.
-        -- apply (hp_same (set_gen s i (GRun pc))); [reflexivity|reflexivity|now apply hp_gen].
+        -- apply (hp_same (set_gen s i (GRun pc))); [reflexivity|reflexivity|apply hp_gen; [exact Np|rewrite D; discriminate|exact P]].
         -- apply hold2_emit. now apply g2_resume.
         -- exists pc. apply gen_set_gen_same.
         -- eapply isnest_of; eassumption.
         -- (* roots: the members of its deque *)
            apply pj_emit; [discriminate|]. exact (pj_hand_run a s C i pc J).
       * (* undefined id: cannot be j; whatever hangs from it is never processed *)
-        eapply pj_drop_undefined; eassumption.
+        apply (pj_drop_undefined a s C i D P (ex_intro _ pc G) J).
     + (* close_own *)
       intros a s X C sid P Hh Hc R Np Ni J O. rewrite close_own_S in *. cbv zeta in *.
       apply (Ili a _ X C); [| |exact Hc| |exact O].
